@@ -7,4 +7,4 @@ META = {"text": 'For mixed synchronisation programs TLC computes the full set of
 
 
 def run(ctx):
-    kernel_sync.run(ctx, "all", 250, 3000)
+    kernel_sync.run(ctx, "all", 250, 1000)
